@@ -486,14 +486,25 @@ class Repository:
 
         return config
 
+    def _check_adapter_role(self, adapter_type, role, description):
+        # Adapters are looked up by name only; make sure that the one that was
+        # picked can actually do the job it was picked for
+        if not issubclass(adapter_type, role):
+            raise exceptions.ReplicatError(
+                f'{adapter_type.__name__} cannot be used for {description}'
+            )
+
     def _instantiate_config(self, config):
         chunker_type, chunker_args = adapters.from_config(**config['chunking'])
+        self._check_adapter_role(chunker_type, adapters.ChunkerAdapter, 'chunking')
         hasher_type, hasher_args = adapters.from_config(**config['hashing'])
+        self._check_adapter_role(hasher_type, adapters.HashAdapter, 'hashing')
 
         if (encryption_config := config.get('encryption')) is not None:
             cipher_type, cipher_args = adapters.from_config(
                 **encryption_config['cipher']
             )
+            self._check_adapter_role(cipher_type, adapters.CipherAdapter, 'encryption')
             cipher = cipher_type(**cipher_args)
         else:
             cipher = None
